@@ -17,7 +17,8 @@ func init() {
 			"(W) who-may-write: every mutation of an *http.Request (header Set/Add/Del/map store, AddCookie, stores to URL/Host/Method/Body/… fields and to fields of its URL) in the proxy's client path and in the agent's handler chain (agent.forwardRequest, agent/sessions, agent/banner, agent/websockets) is enumerated and compared with a frozen, reasoned table; the reverse proxy towards the backend is httputil.NewSingleHostReverseProxy of a URL literal with only Scheme and Host, with no Director/Rewrite/ErrorHandler override; " +
 			"(I) the request object stored by the proxy is the client's own, it is serialised with Request.Write (not WriteProxy), the agent parses it through a reader private to that reply and serves that very object; " +
 			"(T) no non-transparent stdlib handler (ServeMux, StripPrefix, TimeoutHandler, …) is built into the pass-through chain. " +
-			"(M) no pooled buffers on the request path.",
+			"(M) no pooled buffers on the request path. " +
+			"(X) no function that returns an *http.Response defers the cancel of a request context (the caller reads the body after the function returned).",
 		Assumptions: []string{
 			"net/http Request.Write/ReadRequest and httputil.ReverseProxy (Director mode) preserve method, target, Host, end-to-end header values and body bytes",
 		},
@@ -152,10 +153,7 @@ func runC02(c *Ctx) {
 		for _, m := range requestMutations(fn) {
 			nsites++
 			fname := FuncName(fn)
-			top := fn
-			for top.Parent() != nil {
-				top = top.Parent()
-			}
+			top := TopFunc(fn)
 			key := fmt.Sprintf("%s:%s", FuncName(top), m.Kind)
 			if m.Key != "" {
 				key += "(" + m.Key + ")"
@@ -258,10 +256,7 @@ func runC02(c *Ctx) {
 		bad := ""
 		inspected := 0
 		for _, fn := range scope {
-			top := fn
-			for top.Parent() != nil {
-				top = top.Parent()
-			}
+			top := TopFunc(fn)
 			isShimEndpoint := FuncName(top) == "agent/websockets.createShimChannel"
 			EachInstr(fn, func(i ssa.Instruction) {
 				cc := CallOf(i)
@@ -290,6 +285,8 @@ func runC02(c *Ctx) {
 		c.Check("C02.B", "request-path:body-untouched", p, 0, bad == "" && inspected > 100, fmt.Sprintf("%d call sites on the request path inspected: none reads, parses, dumps or re-serialises the forwarded request (the shim endpoints read their own control messages only)", inspected), "on the pass-through path "+bad+": the backend no longer receives the body the client sent (consumed/parsed before forwarding)")
 	}
 
+	c.Rule("C02.X", "the context of a fetched request is not cancelled before its body was forwarded", 1)
+	ruleNoDeferredCancelOnReturnedResponse(c, p, "C02.X", "agent/utils", "agent")
 	c.Rule("C02.M", "request bytes live in call-owned buffers (no pooled memory on the request path)", 1)
 	rulePooledMemory(c, p, "C02.M", "agent/utils", "server", "agent")
 
@@ -349,7 +346,7 @@ func runC02(c *Ctx) {
 		})
 		// helpers between fetch and callback must not close the reply body they are handed
 		for _, fn := range p.FuncsIn("agent/utils") {
-			if fn == f || fn.Name() == "getRequestWithRetries" {
+			if fn == f || ShortName(fn) == "getRequestWithRetries" {
 				continue
 			}
 			for _, i := range Calls(fn, "(io.Closer).Close", "(io.ReadCloser).Close") {
@@ -373,20 +370,7 @@ func runC02(c *Ctx) {
 	}
 
 	// ---- C02.T
-	nonTransparent := []string{"net/http.NewServeMux", "net/http.StripPrefix", "net/http.TimeoutHandler", "net/http.MaxBytesHandler", "net/http.RedirectHandler", "net/http.FileServer", "net/http.AllowQuerySemicolons"}
-	for _, name := range []string{"agent.hostProxy", "agent/websockets.Proxy", "agent/banner.Proxy", "agent/sessions.(*Cache).SessionHandler"} {
-		f := c.need(p, "C02.T", name)
-		if f == nil {
-			continue
-		}
-		bad := ""
-		for _, fn := range WithClosures(f) {
-			for _, call := range Calls(fn, nonTransparent...) {
-				bad = CalleeName(CallOf(call)) + " at " + p.Pos(call.Pos())
-			}
-		}
-		c.Check("C02.T", name+":transparent", p, f.Pos(), bad == "", "no ServeMux/StripPrefix/TimeoutHandler/… on the pass-through route built here", "the pass-through chain built in "+name+" contains "+bad+": http.ServeMux answers 301 itself for any path that is not clean (/a//b, /a/../b) and strips ports for matching, so such requests never reach the backend as sent")
-	}
+	ruleTransparentChain(c, p, "C02.T")
 	// the shim dispatch: mux only behind the prefix test
 	if f := p.Func("agent/websockets.Proxy"); f != nil {
 		n := 0
@@ -412,5 +396,25 @@ func runC02(c *Ctx) {
 		if n == 0 {
 			c.Unk("C02.T", "shim-dispatch:mux-only-under-prefix", p, f.Pos(), "no dispatch to the shim server found in websockets.Proxy")
 		}
+	}
+}
+
+// ruleTransparentChain: no non-transparent stdlib handler is built into the
+// agent's pass-through chain (ServeMux redirects unclean paths, StripPrefix
+// rewrites them, TimeoutHandler buffers the whole response, …).
+func ruleTransparentChain(c *Ctx, p *Prog, rule string) {
+	nonTransparent := []string{"net/http.NewServeMux", "net/http.StripPrefix", "net/http.TimeoutHandler", "net/http.MaxBytesHandler", "net/http.RedirectHandler", "net/http.FileServer", "net/http.AllowQuerySemicolons"}
+	for _, name := range []string{"agent.hostProxy", "agent/websockets.Proxy", "agent/banner.Proxy", "agent/sessions.(*Cache).SessionHandler"} {
+		f := c.need(p, rule, name)
+		if f == nil {
+			continue
+		}
+		bad := ""
+		for _, fn := range WithClosures(f) {
+			for _, call := range Calls(fn, nonTransparent...) {
+				bad = CalleeName(CallOf(call)) + " at " + p.Pos(call.Pos())
+			}
+		}
+		c.Check(rule, name+":transparent", p, f.Pos(), bad == "", "no ServeMux/StripPrefix/TimeoutHandler/… on the pass-through route built here", "the pass-through chain built in "+name+" contains "+bad+": http.ServeMux answers 301 itself for any path that is not clean (/a//b, /a/../b) and strips ports for matching; http.TimeoutHandler buffers the whole response until the handler returns; the request/response no longer passes as sent")
 	}
 }
